@@ -388,6 +388,9 @@ func genHist(t *rapid.T) histCase {
 				f.ServerAddress = "s"
 				f.ByteOrder = packet.ByteOrder(anyOrder(t))
 				a.Fields = append(a.Fields, f)
+				if rapid.IntRange(0, 3).Draw(t, "neardup") == 0 {
+					a.Fields = append(a.Fields, fgen.NearDuplicate(t, f, fmt.Sprintf("f%dn", k)))
+				}
 			}
 			if rapid.IntRange(0, 3).Draw(t, "dup") == 0 && len(a.Fields) > 0 {
 				a.Fields = append(a.Fields, a.Fields[0])
